@@ -230,7 +230,10 @@ def prio_project(kind):
             first_closed = next((i for i, v in enumerate(view) if v["closed_seen"]), None)
             return ["closure", first_closed, tr.closed, tr.err]
         if kind == "C15":
-            return ["calls", [sorted(v["calls"]) for v in view] if allbuf else None, tr.closed, tr.err,
+            # the per-operation sets of divider calls are compared for all-buffered configurations of up to seven inputs: with a
+            # dozen inputs which operation an idle round's repeated calls are attributed to is not determined by the script (found by
+            # a multi-seed sweep after the twelve-input configuration had been added; the call contract is monitored everywhere)
+            return ["calls", [sorted(v["calls"]) for v in view] if allbuf and len(sc.meta["cfg"]) <= 7 else None, tr.closed, tr.err,
                     [v["taken"] for v in view if v["taken"]]]
         return ["full", tr.ops, tr.closed, tr.err]
     return project
